@@ -354,6 +354,9 @@ type vbObs struct {
 	F    vbFObs     `json:"f"`
 	Ev   [][]int    `json:"ev"`
 	Bl   [][]int    `json:"bl"`
+	// Gh[i]: the getheaders request pushed to peer i+1 by the last step: empty
+	// (none) or {first locator hash, stop hash} as header ids (-1 = zero hash)
+	Gh [][]int `json:"gh"`
 	Sync int        `json:"sync"`
 	Cur  int        `json:"cur"`
 	Disc []int      `json:"disc"`
@@ -727,6 +730,52 @@ func (e *vbEnv) closeStores() {
 	}
 }
 
+// The getheaders requests of the block manager go through
+// peer.PushGetHeadersMsg, which remembers the last request (first locator hash
+// and stop hash) in the peer object to drop exact repetitions, and queues the
+// message (dropped here: the fake peers have no connection). The driver clears
+// that memory before every step and reads it afterwards: what the step asked
+// this peer for last, repetitions of an earlier step's request included.
+func vbPrevGetHdrs(p *peer.Peer, name string) **chainhash.Hash {
+	v := reflect.ValueOf(p).Elem().FieldByName(name)
+	return (**chainhash.Hash)(unsafe.Pointer(v.UnsafeAddr()))
+}
+
+func (e *vbEnv) clearGetHeaders() {
+	for _, sp := range e.peers {
+		if sp != nil {
+			*vbPrevGetHdrs(sp.Peer, "prevGetHdrsBegin") = nil
+			*vbPrevGetHdrs(sp.Peer, "prevGetHdrsStop") = nil
+		}
+	}
+}
+
+func (e *vbEnv) hashID(h *chainhash.Hash) int {
+	if h == nil || *h == (chainhash.Hash{}) {
+		return vbNF
+	}
+	if id, ok := e.c.byHash[*h]; ok {
+		return id
+	}
+	return vbG
+}
+
+func (e *vbEnv) getHeadersObs() [][]int {
+	out := make([][]int, len(e.peers))
+	for i, sp := range e.peers {
+		out[i] = []int{}
+		if sp == nil {
+			continue
+		}
+		begin := *vbPrevGetHdrs(sp.Peer, "prevGetHdrsBegin")
+		stop := *vbPrevGetHdrs(sp.Peer, "prevGetHdrsStop")
+		if begin != nil || stop != nil {
+			out[i] = []int{e.hashID(begin), e.hashID(stop)}
+		}
+	}
+	return out
+}
+
 func (e *vbEnv) idOf(h *wire.BlockHeader) int {
 	if id, ok := e.c.byHash[h.BlockHash()]; ok {
 		return id
@@ -834,6 +883,7 @@ func (e *vbEnv) observe() vbObs {
 	if e.bm.BlockHeadersSynced() {
 		o.Cur = 1
 	}
+	o.Gh = e.getHeadersObs()
 	o.Disc = make([]int, len(e.peers))
 	for i, p := range e.peers {
 		if p != nil && vbGetIntField(p.Peer, "disconnect") != 0 {
@@ -919,6 +969,7 @@ func (e *vbEnv) exec(a vbAct) (out vbAct) {
 			out.Res = "panic"
 		}
 	}()
+	e.clearGetHeaders()
 	switch a.Op {
 	case "NewPeer":
 		p, err := peer.NewOutboundPeer(&peer.Config{}, fmt.Sprintf("10.0.0.%d:18555", a.P))
@@ -1279,6 +1330,7 @@ func (w *vbWorker) runPath(p vbPathIn) (out vbPathOut) {
 			o.Sync, o.Cur = 0, 0
 			for k := range o.Disc {
 				o.Disc[k] = 0
+				o.Gh[k] = []int{}
 			}
 		}
 		out.Steps = append(out.Steps, vbStepOut{Act: a, Obs: o})
